@@ -38,8 +38,15 @@ _DROOP = os.path.join(os.path.realpath(REPO), 'droop') + os.sep
 def cases(draw, tier):
     d = D(draw)
     case = draw(gen.election_cases(tier='quick', equal_for_meek=True, rational=False))
+    if case['rule'] in ('meek', 'warren') and d.p(25):
+        # numerals as a command line may deliver them: accepted by int(), but still strings while the count starts (F24)
+        o = dict(case['options'])
+        k = o.get('omega', 3 if o.get('arithmetic') == 'fixed' and o.get('precision', 9) < 6 else 5)
+        if isinstance(k, int) and (o.get('arithmetic') != 'guarded' or k <= o.get('precision', 18)):
+            o['omega'] = d.choice(['+%d', ' %d', '%d ', '0%d']) % k
+            case['options'] = o
     nk = 150 if tier == 'quick' else 0
-    ks = [d.int(0, 10 ** 6) for _ in range(nk)]
+    ks = [d.int(1, 80) if d.p(20) else d.int(0, 10 ** 6) for _ in range(nk)]     # a fifth of the points fall into the preamble of the count
     return dict(case=case, ks=ks, order=d.perm([0, 1, 2]), all=(tier == 'thorough'))
 
 
